@@ -620,8 +620,18 @@ def run_acc_buffers(task, ctx):
     else:
         comps = (dict(c, solver=dict(c["solver"], kw=dict(c["solver"]["kw"], max_iter=k)))
                  for c in c03.acc_family_comps(dict(solver=sn, part=task["part"]), ctx.tier) for k in (2, 3, 4, 5, 7))
+    def with_variants(cs):
+        for c in cs:
+            yield c
+            if sn != "AndersonCD-default" and c["solver"]["kw"].get("max_iter") in (3, 7):
+                # the same node on CSC storage with an (uncentred) intercept: the sparse branches keep the intercept apart
+                w0 = np.array(c["w_init"], dtype=float)
+                w0i = np.vstack([w0, np.zeros((1, w0.shape[1]))]) if w0.ndim == 2 else np.append(w0, 0.0)
+                y = np.array(c["y"], dtype=float) + 3.0
+                yield dict(c, storage="csc", y=y.tolist(), w_init=w0i.tolist(),
+                           solver=dict(c["solver"], kw=dict(c["solver"]["kw"], fit_intercept=True)), xid=c["xid"] + "+csc+icpt")
     n = 0
-    for comp in comps:
+    for comp in with_variants(comps):
         v, w = exec_buffer_node(comp)
         n += 1
         ctx.states += 1
